@@ -578,7 +578,7 @@ func TestVerifC22_Resize(t *testing.T) {
 			if m.cur != nil {
 				kinds = append(kinds, "complete", "complete", "complete", "fail", "foreign", "window")
 				if len(m.cur.reported) > 0 {
-					kinds = append(kinds, "duplicate")
+					kinds = append(kinds, "duplicate", "duplicate", "duplicate")
 				}
 			}
 			kinds = append(kinds, "abort", "unknown")
